@@ -30,6 +30,12 @@ def main():
             r = {"error": f"{type(ex).__name__}: {ex}", "traceback": traceback.format_exc()[-3000:]}
         if dump:
             faulthandler.cancel_dump_traceback_later()
+        try:  # a reused worker keeps jax's executables mapped; see rt.relieve_maps
+            import rt
+
+            rt.relieve_maps(6000)
+        except Exception:  # noqa
+            pass
         real_stdout.write("@@RESULT@@" + json.dumps(r, default=str) + "\n")
         real_stdout.flush()
 
